@@ -256,6 +256,12 @@ pub fn main(layouts_json: &str, entries: &[Entry]) -> i32 {
             }
             match run_case(l, e, &case) {
                 Outcome::Pass(st) => {
+                    res.setup_anomalies += st.setup_anomalies;
+                    if let Some(m) = &st.setup_anomaly_example {
+                        if res.setup_anomaly_examples.len() < 5 {
+                            res.setup_anomaly_examples.push(format!("layout {} run {}: {}", l.id, j, m));
+                        }
+                    }
                     res.steps += st.steps;
                     res.getter_comparisons += st.getter_comparisons;
                     res.raw_comparisons += st.raw_comparisons;
